@@ -185,6 +185,10 @@ func (c *child) one(cs *ccase) (vs []viol, died bool) {
 		fmt.Sprintf("%s: the process running the transport died (%v): %s", describe(cs, cs.Steps, len(cs.Steps)), werr2, firstLines(trace, 3))}}, true
 }
 
+const maxHangVerdicts = 16
+
+var hangVerdicts, skippedAfterHangs int64
+
 // runInChildren evaluates cases[i] for all i in child processes, in parallel.
 func runInChildren(cases []ccase, workers int, onResult func(i int, vs []viol)) (spawned int64) {
 	var next int64 = -1
@@ -204,6 +208,11 @@ func runInChildren(cases []ccase, workers int, onResult func(i int, vs []viol)) 
 				if i >= len(cases) {
 					return
 				}
+				if atomic.LoadInt64(&hangVerdicts) >= maxHangVerdicts {
+					// every hang costs a 30 s (or 120 s) watchdog: enough of them are a verdict, the rest is skipped
+					atomic.AddInt64(&skippedAfterHangs, 1)
+					continue
+				}
 				if ch == nil {
 					var err error
 					ch, err = startChild()
@@ -216,6 +225,12 @@ func runInChildren(cases []ccase, workers int, onResult func(i int, vs []viol)) 
 				vs, died := ch.one(&cases[i])
 				if died {
 					ch = nil
+				}
+				for _, v := range vs {
+					if strings.Contains(v.Sig, "hangs") {
+						atomic.AddInt64(&hangVerdicts, 1)
+						break
+					}
 				}
 				onResult(i, vs)
 			}
